@@ -13,9 +13,10 @@ import RwsDriver.Mime
 import RwsDriver.Json
 import RwsDriver.Query
 import RwsDriver.Multipart
+import RwsDriver.ResponseM
 open RwsDriver
 
-def allOps : List (String × Op) := base64Ops ++ corsOps ++ rangeMOps ++ poolOps ++ requestOps ++ configOps ++ mimeOps ++ jsonOps ++ queryOps ++ multipartOps
+def allOps : List (String × Op) := base64Ops ++ corsOps ++ rangeMOps ++ poolOps ++ requestOps ++ configOps ++ mimeOps ++ jsonOps ++ queryOps ++ multipartOps ++ responseOps
 
 def runLine (line : String) : String :=
   match (line.trimAscii.toString.splitOn " ").filter (· ≠ "") with
